@@ -100,6 +100,11 @@ pub fn conclude(id: &str, tier: &str, seed: i64, wall_s: f64, o: &Outcome) -> i3
     std::fs::create_dir_all(ev_dir.join("replays")).ok();
     let known = load_known();
 
+    if std::env::var("VERIF_DEBUG").is_ok() {
+        for f in &o.found {
+            outln(&format!("DEBUG-FOUND clause={} sig={} :: {}", f.clause, f.sig, f.detail));
+        }
+    }
     let mut new_violations: Vec<(&Found, PathBuf)> = vec![];
     let mut known_hits: Vec<(&Known, usize)> = vec![];
     let mut seen_sigs: Vec<(String, String)> = vec![];
@@ -140,18 +145,19 @@ pub fn conclude(id: &str, tier: &str, seed: i64, wall_s: f64, o: &Outcome) -> i3
     for (k, n) in &known_hits {
         outln(&format!("KNOWN-FINDING: property={} clause={} sig={} occurrences={} {}", id, k.clause, k.sig, n, k.what));
     }
-    if !o.machinery.is_empty() {
-        for m in &o.machinery {
-            outln(&format!("MACHINERY-FAILURE property={} {}", id, m));
-        }
-        return 2;
+    for m in &o.machinery {
+        outln(&format!("MACHINERY-FAILURE property={} {}", id, m));
     }
     if !new_violations.is_empty() {
+        // a reproduced violation is a verdict even if a vacuity guard also tripped
         for (f, p) in &new_violations {
             outln(&format!("VIOLATION property={} replay={}", id, p.display()));
             outln(&format!("  clause={} sig={} :: {}", f.clause, f.sig, f.detail));
         }
         return 1;
+    }
+    if !o.machinery.is_empty() {
+        return 2;
     }
     outln(&format!("OK property={} tier={} wall_s={:.1}", id, tier, wall_s));
     0
